@@ -114,7 +114,7 @@ pub fn model_exec(w0: &World) -> ModelOut {
         }
         let compute_it = run || w.kind(s) != Kind::Output;
         let mut contents = BTreeMap::new();
-        for p in parts_of(w.st[s].parts) {
+        for p in parts_of(w.parts(s)) {
             let n = part_name(s, p);
             let v = if compute_it {
                 w.compute(s, p, &content)
